@@ -14,7 +14,7 @@
    Model/SemStrict.v instruments the evaluator: `causes fl p e` lists every place where the data reaches a convention
    (a null operand of a comparison / and / or / maximum / minimum / fmax / fmin whose value is used, `!=` against a null in a
    row filter, sum / count over a group without values, a running window function meeting a null, a null or a tie among sort
-   keys that decide a limit or an ordered window, null join keys on both sides, a FULL join with a null key).  If that list
+   keys that decide a limit or an ordered window, null join keys on both sides).  If that list
    is empty, ALL flavours compute the SAME table.  So on every input where no listed case arises the models of Pandas,
    SQLite and PostgreSQL coincide: no other source of disagreement exists in the models. *)
 From Coq Require Import List Bool Arith ZArith QArith String Permutation.
@@ -81,7 +81,7 @@ Print Assumptions C01_join_with_null_keys_on_one_side_only.
                                               /\ map cause_code (causes fl_pandas p e) = codes
    (the two models return different multisets of rows, and the walk names exactly these causes; codes: cause_code in
    Model/SemStrict.v: 1 comparison, 2 != in a filter, 3 and/or, 4 maximum/minimum, 5 fmax/fmin, 6 empty aggregate,
-   7 running window, 8 null sort key, 9 ties, 10 null join keys, 11 FULL join with a null key).
+   7 running window, 8 null sort key, 9 ties, 10 null join keys).
    Proofs/AgreeP4.v also shows for each witness that exactly ONE convention of SQLite matters (w_*_ok). *)
 Theorem C01_null_operand_of_comparison_refuted : differ_with_causes fl_sqlite [1; 1]%nat.
 Proof. exact w_cmp_refuted. Qed.
@@ -112,9 +112,12 @@ Print Assumptions C01_null_sort_key_with_limit_refuted.
 Theorem C01_null_order_key_of_window_refuted : differ_with_causes fl_sqlite [8]%nat.
 Proof. exact w_window_order_refuted. Qed.
 Print Assumptions C01_null_order_key_of_window_refuted.
-Theorem C01_null_join_keys_on_both_sides_refuted : differ_with_causes fl_sqlite [10]%nat.
-Proof. exact w_join_refuted. Qed.
-Print Assumptions C01_null_join_keys_on_both_sides_refuted.
+(* null join keys on both sides: pandas.merge pairs them; the Pandas executor did too until /repo af27aca (then a divergence of this
+   property).  Now the four named flavours agree (Examples below); the cause stays in the hypothesis because the theorems hold for
+   EVERY flavour record: for a backend that pairs null keys the statement is false on that input *)
+Theorem C01_null_join_keys_on_both_sides_refuted_for_some_conventions : exists fl : flavor, differ_with_causes fl [10]%nat.
+Proof. exact w_join_some_flavour_refuted. Qed.
+Print Assumptions C01_null_join_keys_on_both_sides_refuted_for_some_conventions.
 (* row ORDER after a final order_rows over a key with nulls differs, the multiset does not (and the multiset walk accepts it) *)
 Theorem C01_row_order_over_null_sort_key_refuted :
   exists (p : op) (e : env), tables_agree true (sem_gen fl_pandas p e) (sem_gen fl_sqlite p e) = false
@@ -134,6 +137,17 @@ Example C01_maximum_minimum_with_null_polars_agrees : verdict fl_polars w_minmax
 Proof. exact w_minmax_polars. Qed.
 Example C01_fmax_fmin_with_null_now_agree : verdict fl_sqlite w_fminmax = ([5; 5; 5]%nat, []%nat, true).
 Proof. exact w_fminmax_ok. Qed.
+Example C01_null_join_keys_sqlite_agrees : verdict fl_sqlite w_join = ([10]%nat, []%nat, true).
+Proof. exact w_join_ok. Qed.
+Example C01_null_join_keys_postgres_agrees : verdict fl_postgres w_join = ([10]%nat, []%nat, true).
+Proof. exact w_join_postgres. Qed.
+Example C01_null_join_keys_polars_agrees : verdict fl_polars w_join = ([10]%nat, []%nat, true).
+Proof. exact w_join_polars. Qed.
+(* a FULL join with null keys on one side only is insensitive (no exclusion any more) and keeps every null-key row *)
+Example C01_full_join_with_null_keys_on_one_side :
+  verdict fl_sqlite w_full_join = ([]%nat, []%nat, true) /\ insensitive w_full_join w_env = true
+  /\ option_map (fun t => List.length (rows t)) (sem_strict w_full_join w_env) = Some 6%nat.
+Proof. exact w_full_join_ok. Qed.
 Example C01_insensitive_example : insensitive nv_pipeline nv_env = true.
 Proof. exact nv_insensitive. Qed.
 Example C01_insensitive_example_result :
